@@ -22,21 +22,24 @@ PROVED (for all states, arguments, fuel):
   fail_frame_rwith_precheck  `replace_with` rejected by one of its pre-checks (new node has a parent; `None`
                              for a required field; class not accepted by the parent field): `s' = s`
 
-PARTIAL — full statements, not proved:
+  fail_frame_rwith           `replace_with` rejected with ASTNodeReplaceWithError for WHATEVER reason, in particular
+                             because the new node cannot be attached (registry / parent collision anywhere in its
+                             subtree): the receiver's subtree has been detached and is re-attached by the roll-back
+                             (Props/LegacyRollback.lean: `reattach_frame` = detach + re-attach restores every parent
+                             slot, registry entry and content id), the new node gets its ids and its registry entry
+                             back; receiver with or without parent, new node attached root or detached
 
-  theorem fail_frame_rwith : Inv Hc s → step H Hc s (.rwith u new) = (s', .raised .replaceWithError) → Frame s s'
-  theorem fail_frame_dup   : Inv Hc s → step H Hc s (.dup u c) = (s', .raised e) → e ≠ .hang → Frame s (gc s')
+  fail_frame_dup             `duplicate` rejected at any depth (Props/LegacyDupFrame.lean): every pre-existing record
+                             untouched, every pre-existing registry entry kept, any additional entry belongs to an
+                             object created by the rejected call (an already duplicated child, garbage when the call
+                             returns: weak registry, collected by `gcNew` in Handle/Legacy.lean, which is glue)
 
-  What is missing: (1) `replace_with` rejected because the new node cannot be attached: the receiver's
-  subtree has been detached (`detach`) and is re-attached by the roll-back (`_attach`); one needs
-  "`_attach` after `detach` of a consistent subtree restores it" (parent slots, registry entries and
-  content ids of the whole subtree).  (2) a rejected non-clone `duplicate` leaves the already duplicated
-  children registered until they are garbage collected (weak registry: `gcNew` in Handle/Legacy.lean is
-  glue, not part of `step`).  (3) transform visitor / transformer: not modelled in Lean; two KNOWN
-  findings (no roll-back across several replaced nodes) are listed in known_findings.json.
-  All of these are exercised on every run by the frame oracle on the real objects and by K1.
+NOT MODELLED: transform visitor / transformer (three KNOWN findings: no roll-back across several replaced
+nodes, see known_findings.json); exercised on every run by the frame oracle on the real objects.
 -/
 import PyOak.Props.C18
+import PyOak.Props.LegacyRollback
+import PyOak.Props.LegacyDupFrame
 namespace PyOak.Legacy.C19
 open PyOak PyOak.Legacy LState
 
@@ -163,59 +166,6 @@ theorem fail_frame_rwith_precheck {s : LState} {u fuel : Nat} {new : Option Nat}
           | some fl => rw [hfl] at hp; simp only at hp ⊢; simp only [hp, if_true]
 
 /-! ### the roll-back of `replace` -/
-
-/-- two records that differ at most in the parent slots and agree there are equal -/
-theorem eq_of_sameButParent {a b : LObj} (h : SameButParent a b) (h1 : a.pid = b.pid) (h2 : a.pfield = b.pfield)
-    (h3 : a.pindex = b.pindex) : a = b := by
-  cases a; cases b
-  obtain ⟨c1, c2, c3, c4, c5, c6, c7, c8, c9⟩ := h
-  simp only at c1 c2 c3 c4 c5 c6 c7 c8 c9 h1 h2 h3
-  subst c1 c2 c3 c4 c5 c6 c7 c8 c9 h1 h2 h3
-  rfl
-
-theorem sameButParent_clearP (o : LObj) : SameButParent (clearP o) o := ⟨rfl, rfl, rfl, rfl, rfl, rfl, rfl, rfl, rfl⟩
-
-theorem sameButParent_setSlots (o : LObj) (a : Option Str) (b : Option Str) (c : Option Nat) :
-    SameButParent ({ o with pid := a, pfield := b, pindex := c } : LObj) o := ⟨rfl, rfl, rfl, rfl, rfl, rfl, rfl, rfl, rfl⟩
-
-theorem SameButParent.symm {a b : LObj} (h : SameButParent a b) : SameButParent b a :=
-  ⟨h.cls.symm, h.mro.symm, h.fqn.symm, h.props.symm, h.id.symm, h.origId.symm, h.collWith.symm, h.cid.symm,
-   h.fields.symm⟩
-
-/-- `reparent` gives the listed children exactly the parent slots of the target records `o` -/
-theorem reparent_restore (u : Nat) (o : Nat → LObj) : ∀ (l : List (Nat × Str × Option Nat)) (t : LState),
-    (∀ x, SameButParent (t.obj x) (o x)) →
-    (∀ e ∈ l, (o e.1).pid = some (t.idOf u) ∧ (o e.1).pfield = some e.2.1 ∧ (o e.1).pindex = e.2.2) →
-    ∀ x, x ∈ l.map (·.1) → (reparent u t l).obj x = o x := by
-  intro l
-  induction l with
-  | nil => intro t _ _ x hx; cases hx
-  | cons a r ih =>
-    intro t hsame hl x hx
-    obtain ⟨c, f, i⟩ := a
-    simp only [reparent]
-    have hsame' : ∀ y, SameButParent ((t.setParent c u f i).obj y) (o y) := by
-      intro y; rw [setParent_obj]; split
-      · next h =>
-        subst h
-        have h0 : SameButParent ({ t.obj y with pid := some (t.idOf u), pfield := some f, pindex := i } : LObj) (t.obj y) :=
-          ⟨rfl, rfl, rfl, rfl, rfl, rfl, rfl, rfl, rfl⟩
-        exact SameButParent.trans h0 (hsame y)
-      · exact hsame y
-    by_cases hxr : x ∈ r.map (·.1)
-    · exact ih _ hsame' (fun e he => by rw [setParent_idOf]; exact hl e (List.mem_cons_of_mem _ he)) x hxr
-    · have hxc : x = c := by
-        simp only [List.map_cons, List.mem_cons] at hx
-        rcases hx with h | h
-        · exact h
-        · exact absurd h hxr
-      subst hxc
-      rw [reparent_obj_not_mem u r _ x hxr]
-      obtain ⟨p1, p2, p3⟩ := hl (x, f, i) (List.mem_cons_self ..)
-      apply eq_of_sameButParent (hsame' x)
-      · rw [setParent_obj]; simp [p1]
-      · rw [setParent_obj]; simp [p2]
-      · rw [setParent_obj]; simp [p3]
 
 /-- the state in which the construction of the new node is attempted, and failed: relative to `s`
 the receiver has lost its registry entry and (if it had one) its parent link, its children have
@@ -408,6 +358,393 @@ theorem fail_frame_replace {s s' : LState} {u : Nat} {ch : Changes} {e : Err} (h
           exact ⟨fun k => by unfold LState.lookup; rw [hreg3], fun v hv => hobj3 v (by omega)⟩
         · exact absurd (ofNode_ite_hang h) he
 
+/-! ### `replace_with` rejected because the new node cannot be attached -/
+
+/-- the receiver has no parent -/
+theorem rwith_rollback_root {s s' : LState} {u n fuel : Nat} (hI : Inv Hc s)
+    (hpar : s.parent u = none) (hsub : s.isAttachedSubtree n = false)
+    (h : replaceWith Hc fuel s u (some n) = (s', .error .replaceWithError)) : Frame s s' := by
+  unfold replaceWith at h
+  simp only [hsub, Bool.false_eq_true, if_false, hpar] at h
+  -- n is detached, or an attached root
+  have hnroot : Att s n → s.parent n = none := by
+    intro ha
+    unfold LState.isAttachedSubtree at hsub
+    cases hp : s.parent n with
+    | none => rfl
+    | some q => simp [hp, (detached_eq_false_iff s n).mpr ha] at hsub
+  by_cases hd : s.detached u = true
+  · -- detached receiver: nothing is detached, nothing has to be re-attached
+    simp only [hd, Bool.not_true, Bool.false_eq_true, if_false] at h
+    cases hat : attach Hc fuel (takeOver s u n).1 n with
+    | mk s3 r3 =>
+      rw [hat] at h
+      cases r3 with
+      | ok x => cases x; simp at h
+      | error e =>
+        simp only [Prod.mk.injEq, Except.error.injEq] at h
+        obtain ⟨rfl, he⟩ := h
+        have hs3 := attach_fail_frame Hc _ _ _ _ _ hat
+        rw [hs3]
+        have hobj := takeOver_restore_obj s u n
+        have hlk := takeOver_restore_lookup s u n
+        by_cases hnd : s.detached n = true
+        · have hto : (takeOver s u n).2 = false := by unfold takeOver; simp [hnd]
+          simp only [hto, Bool.false_eq_true, if_false]
+          exact ⟨fun k => by rw [hlk]; simp [hnd], fun v _ => hobj v⟩
+        · have hnd' : s.detached n = false := by cases hh : s.detached n <;> simp_all
+          have hto : (takeOver s u n).2 = true := by unfold takeOver; simp [hnd']
+          simp only [hto, if_true]
+          refine ⟨fun k => ?_, fun v _ => by rw [register_obj]; exact hobj v⟩
+          rw [register_lookup]
+          have hidn : ((takeOver s u n).1.modify n fun y =>
+              { y with id := (s.obj n).id, origId := (s.obj n).origId }).idOf n = s.idOf n := by
+            unfold LState.idOf; rw [hobj]
+          rw [hidn, hlk]
+          by_cases hk : s.idOf n = k
+          · simp only [hk, if_true]; rw [← hk]; exact ((detached_eq_false_iff s n).mp hnd').symm
+          · simp [hk]
+  · -- attached root: detach, (failed attach of n), re-attach
+    have hd' : s.detached u = false := by cases hh : s.detached u <;> simp_all
+    have hua : Att s u := (detached_eq_false_iff s u).mp hd'
+    simp only [hd', Bool.not_false, if_true] at h
+    cases hds : detachGo (fuel + 1) false s u with
+    | mk s1 r1 =>
+      rw [hds] at h
+      cases r1 with
+      | none => simp at h
+      | some b =>
+        simp only at h
+        cases hat : attach Hc fuel (takeOver s1 u n).1 n with
+        | mk s3 r3 =>
+          rw [hat] at h
+          cases r3 with
+          | ok x => cases x; simp at h
+          | error e =>
+            simp only at h
+            have hs3 := attach_fail_frame Hc _ _ _ _ _ hat
+            rw [hs3] at h
+            cases hat2 : attach Hc fuel ((takeOver s1 u n).1.modify n fun x =>
+                { x with id := (s1.obj n).id, origId := (s1.obj n).origId }) u with
+            | mk s5 r5 =>
+              rw [hat2] at h
+              cases r5 with
+              | error e' =>
+                exfalso
+                simp only [Prod.mk.injEq, Except.error.injEq] at h
+                rcases attach_err_kind Hc hat2 with h1 | h1 | h1 <;> rcases attach_err_kind Hc hat with h2 | h2 | h2 <;>
+                  simp [h1, h2] at h
+              | ok x =>
+                cases x
+                simp only [Prod.mk.injEq, Except.error.injEq] at h
+                obtain ⟨rfl, _⟩ := h
+                have hS : Shrinks s s1 := by
+                  have := (detachGo_facts (fuel + 1) false s u b (by rw [hds])).shr; rwa [hds] at this
+                have hobj := takeOver_restore_obj s1 u n
+                have hlk := takeOver_restore_lookup s1 u n
+                have hs1u : s1.obj u = s.obj u := by
+                  apply Classical.byContradiction; intro hne
+                  have ht := detachGo_touched (fuel + 1) false s u b (by rw [hds])
+                  rw [hds] at ht
+                  obtain ⟨q, hq, huq⟩ := ht u hne
+                  obtain ⟨e, he, he1⟩ := (mem_kidList_iff _ _).mp huq
+                  obtain ⟨_, b1, _, _⟩ := hI.down' q hq.1 e he
+                  rw [he1] at b1
+                  unfold LState.parent at hpar
+                  rw [b1] at hpar; simp only at hpar
+                  have := hq.1; unfold Att at this; rw [this] at hpar; cases hpar
+                -- the key that the take-over removed (if the new node was registered)
+                let kn : Option Str := if s1.detached n = false then some (s1.idOf n) else none
+                have hid1 : ∀ x, s1.idOf x = s.idOf x := hS.id_eq
+                have hnatt1 : s1.detached n = false → Att s n := fun h => hS.att ((detached_eq_false_iff s1 n).mp h)
+                have hfr := reattach_frame Hc (kn := kn) hI hua (fun _ => rfl) (fun _ _ => rfl) (SameButParent.refl _) hds
+                  (fun x _ => hobj x) (by rw [hobj]; exact hs1u)
+                  (by
+                    intro k
+                    rw [hlk]
+                    by_cases hc : s1.detached n = false ∧ s1.idOf n = k
+                    · right; simp only [hc, and_self, if_true, true_and]; show some k = kn; simp [kn, hc.1, hc.2]
+                    · left; simp [hc])
+                  (by
+                    intro k hk m hm hidm
+                    have hnd1 : s1.detached n = false := by
+                      cases hh : s1.detached n <;> simp_all [kn]
+                    have hk' : s1.idOf n = k := by simp [kn, hnd1] at hk; exact hk
+                    have hna : Att s n := hnatt1 hnd1
+                    have hnu : n ≠ u := by
+                      intro e; subst e
+                      exact detachGo_root_detaches hua hpar hds ((detached_eq_false_iff s1 n).mp hnd1)
+                    have hma := (upFree_of_desc hI hua hm (fun _ _ hx => hx.elim)).1
+                    have : m = n := att_inj hma hna (by rw [hidm, ← hk', hid1])
+                    subst this
+                    -- a descendant other than the receiver has a parent; the new node has none
+                    cases hm with
+                    | refl => exact hnu rfl
+                    | @step q' _ hd' hkq =>
+                      have hq' := (upFree_of_desc hI hua hd' (fun _ _ hx => hx.elim)).1
+                      obtain ⟨e, he, he1⟩ := (mem_kidList_iff _ _).mp hkq
+                      obtain ⟨_, b1, _, _⟩ := hI.down' q' hq' e he
+                      rw [he1] at b1
+                      have := hnroot hna
+                      unfold LState.parent at this
+                      rw [b1] at this; simp only at this
+                      unfold Att at hq'; rw [hq'] at this; cases this)
+                  hat2
+                obtain ⟨f1, f2, f3⟩ := hfr
+                by_cases hnd1 : s1.detached n = true
+                · have hto : (takeOver s1 u n).2 = false := by unfold takeOver; simp [hnd1]
+                  simp only [hto, Bool.false_eq_true, if_false]
+                  refine ⟨fun k => f2 k ?_, fun v _ => f1 v⟩
+                  simp [kn, hnd1]
+                · have hnd1' : s1.detached n = false := by cases hh : s1.detached n <;> simp_all
+                  have hto : (takeOver s1 u n).2 = true := by unfold takeOver; simp [hnd1']
+                  simp only [hto, if_true]
+                  refine ⟨fun k => ?_, fun v _ => by rw [register_obj]; exact f1 v⟩
+                  rw [register_lookup]
+                  have hidn : s5.idOf n = s.idOf n := by unfold LState.idOf; rw [f1]
+                  rw [hidn]
+                  by_cases hk : s.idOf n = k
+                  · simp only [hk, if_true]; rw [← hk]; exact (hnatt1 hnd1').symm
+                  · simp only [hk, if_false]
+                    exact f2 k (by simp [kn, hnd1', hid1]; exact fun e => hk e.symm)
+
+/-- an attached root other than the receiver is not among the receiver's descendants -/
+theorem root_not_desc {s : LState} {u n : Nat} (hI : Inv Hc s) (hua : Att s u) (hnu : n ≠ u) (hna : Att s n)
+    (hnroot : s.parent n = none) : ∀ m, Desc s u m → s.idOf m ≠ s.idOf n := by
+  intro m hm hidm
+  have hma := (upFree_of_desc hI hua hm (fun _ _ hx => hx.elim)).1
+  have : m = n := att_inj hma hna hidm
+  subst this
+  cases hm with
+  | refl => exact hnu rfl
+  | @step q' _ hd' hkq =>
+    have hq' := (upFree_of_desc hI hua hd' (fun _ _ hx => hx.elim)).1
+    obtain ⟨e, he, he1⟩ := (mem_kidList_iff _ _).mp hkq
+    obtain ⟨_, b1, _, _⟩ := hI.down' q' hq' e he
+    rw [he1] at b1
+    unfold LState.parent at hnroot
+    rw [b1] at hnroot; simp only at hnroot
+    unfold Att at hq'; rw [hq'] at hnroot; cases hnroot
+
+/-- the receiver has a parent -/
+theorem rwith_rollback_parent {s s' : LState} {u p n fuel : Nat} (hI : Inv Hc s)
+    (hpar : s.parent u = some p) (hsub : s.isAttachedSubtree n = false) (hnu : n ≠ u)
+    (h : replaceWith Hc fuel s u (some n) = (s', .error .replaceWithError)) : Frame s s' := by
+  have hua : Att s u := by
+    unfold LState.parent at hpar
+    cases hk : (s.obj u).pid with
+    | none => rw [hk] at hpar; cases hpar
+    | some k => exact (hI.noDangling u k hk).1
+  obtain ⟨f, hf, _⟩ := hI.up u hua p hpar
+  have hnroot : Att s n → s.parent n = none := by
+    intro ha
+    unfold LState.isAttachedSubtree at hsub
+    cases hp : s.parent n with
+    | none => rfl
+    | some q => simp [hp, (detached_eq_false_iff s n).mpr ha] at hsub
+  unfold replaceWith at h
+  simp only [hsub, Bool.false_eq_true, if_false, hpar, hf] at h
+  split at h
+  · simp at h
+  · split at h
+    · -- type violation: nothing was touched
+      simp only [Prod.mk.injEq] at h; rw [← h.1]; exact Frame.refl _
+    · cases hds : detachGo (fuel + 1) false (s.clearParent u) u with
+      | mk t2 r2 =>
+        rw [hds] at h
+        cases r2 with
+        | none => simp at h
+        | some b =>
+          simp only at h
+          cases hat : attach Hc fuel (takeOver t2 u n).1 n with
+          | mk s3 r3 =>
+            rw [hat] at h
+            cases r3 with
+            | ok x =>
+              exfalso
+              cases x
+              simp only at h
+              split at h <;> simp at h
+            | error e =>
+              simp only at h
+              have hs3 := attach_fail_frame Hc _ _ _ _ _ hat
+              rw [hs3] at h
+              cases hat2 : attach Hc fuel (((takeOver t2 u n).1.modify n fun x =>
+                  { x with id := (t2.obj n).id, origId := (t2.obj n).origId }).setParent u p f (s.obj u).pindex) u with
+              | mk s7 r7 =>
+                rw [hat2] at h
+                cases r7 with
+                | error e' =>
+                  exfalso
+                  simp only [Prod.mk.injEq, Except.error.injEq] at h
+                  rcases attach_err_kind Hc hat2 with h1 | h1 | h1 <;>
+                    rcases attach_err_kind Hc hat with h2 | h2 | h2 <;> simp [h1, h2] at h
+                | ok x =>
+                  cases x
+                  simp only [Prod.mk.injEq, Except.error.injEq] at h
+                  obtain ⟨rfl, _⟩ := h
+                  have hS : Shrinks (s.clearParent u) t2 := by
+                    have := (detachGo_facts (fuel + 1) false (s.clearParent u) u b (by rw [hds])).shr
+                    rwa [hds] at this
+                  have hobj := takeOver_restore_obj t2 u n
+                  have hlk := takeOver_restore_lookup t2 u n
+                  have hid2 : ∀ x, t2.idOf x = s.idOf x := by intro x; rw [hS.id_eq, clearParent_idOf]
+                  have hnatt2 : t2.detached n = false → Att s n := fun h =>
+                    (att_clearParent_iff s u n).mp (hS.att ((detached_eq_false_iff t2 n).mp h))
+                  let kn : Option Str := if t2.detached n = false then some (t2.idOf n) else none
+                  -- the record of the receiver is what it was: its parent slots have been restored
+                  have h6u : ((((takeOver t2 u n).1.modify n fun x =>
+                      { x with id := (t2.obj n).id, origId := (t2.obj n).origId }).setParent u p f
+                        (s.obj u).pindex).obj u) = s.obj u := by
+                    rw [setParent_obj]; simp only [if_true]
+                    rw [hobj]
+                    have hsame : SameButParent (t2.obj u) (s.obj u) := by
+                      rcases hS.obj u with h1 | h1 <;> rw [h1, clearParent_obj'] <;> simp only [if_true]
+                      · exact sameButParent_clearP _
+                      · exact SameButParent.trans (sameButParent_clearP _) (sameButParent_clearP _)
+                    unfold LState.parent at hpar
+                    cases hk : (s.obj u).pid with
+                    | none => rw [hk] at hpar; cases hpar
+                    | some k =>
+                      rw [hk] at hpar
+                      obtain ⟨_, hpid⟩ := hI.regSound k p hpar
+                      apply eq_of_sameButParent
+                      · exact SameButParent.trans (sameButParent_setSlots _ _ _ _) hsame
+                      · show some _ = _
+                        rw [hk]
+                        congr 1
+                        unfold LState.idOf; rw [hobj]; exact (hid2 p).trans hpid
+                      · show some f = _; rw [hf]
+                      · rfl
+                  have hfr := reattach_frame Hc (t1 := s.clearParent u) (kn := kn) hI hua (fun _ => rfl)
+                    (fun x hx => by rw [clearParent_obj']; simp [hx])
+                    (by rw [clearParent_obj']; simp only [if_true]; exact sameButParent_clearP _) hds
+                    (fun x hx => by rw [setParent_obj]; simp only [hx, if_false]; exact hobj x) h6u
+                    (by
+                      intro k
+                      rw [setParent_lookup, hlk]
+                      by_cases hc : t2.detached n = false ∧ t2.idOf n = k
+                      · right; simp only [hc, and_self, if_true, true_and]; show some k = kn; simp [kn, hc.1, hc.2]
+                      · left; simp [hc])
+                    (by
+                      intro k hk m hm
+                      have hnd2 : t2.detached n = false := by cases hh : t2.detached n <;> simp_all [kn]
+                      have hk' : t2.idOf n = k := by simp [kn, hnd2] at hk; exact hk
+                      have hna := hnatt2 hnd2
+                      rw [← hk', hid2]
+                      exact root_not_desc Hc hI hua hnu hna (hnroot hna) m hm)
+                    hat2
+                  obtain ⟨f1, f2, f3⟩ := hfr
+                  by_cases hnd2 : t2.detached n = true
+                  · have hto : (takeOver t2 u n).2 = false := by unfold takeOver; simp [hnd2]
+                    simp only [hto, Bool.false_eq_true, if_false]
+                    refine ⟨fun k => f2 k ?_, fun v _ => f1 v⟩
+                    simp [kn, hnd2]
+                  · have hnd2' : t2.detached n = false := by cases hh : t2.detached n <;> simp_all
+                    have hto : (takeOver t2 u n).2 = true := by unfold takeOver; simp [hnd2']
+                    simp only [hto, if_true]
+                    refine ⟨fun k => ?_, fun v _ => by rw [register_obj]; exact f1 v⟩
+                    rw [register_lookup]
+                    have hidn : s7.idOf n = s.idOf n := by unfold LState.idOf; rw [f1]
+                    rw [hidn]
+                    by_cases hk : s.idOf n = k
+                    · simp only [hk, if_true]; rw [← hk]; exact (hnatt2 hnd2').symm
+                    · simp only [hk, if_false]
+                      exact f2 k (by simp [kn, hnd2', hid2]; exact fun e => hk e.symm)
+
+/-- **`replace_with` rejected (`ASTNodeReplaceWithError`)**, for whatever reason -- a pre-check, or the new
+node cannot be attached (registry / parent collision anywhere in its subtree): the receiver, its whole
+subtree, the new node and the registry are exactly what they were -/
+theorem fail_frame_rwith {s s' : LState} {u : Nat} {new : Option Nat} (hI : Inv Hc s)
+    (h : step H Hc s (.rwith u new) = (s', .raised .replaceWithError)) : Frame s s' := by
+  unfold step at h
+  split at h
+  · cases h
+  · simp only at h
+    cases hrw : replaceWith Hc (fuelOf s) s u new with
+    | mk s1 r1 =>
+      rw [hrw] at h
+      cases r1 with
+      | ok x => cases x; simp [ofUnit] at h
+      | error e =>
+        simp only [ofUnit, Prod.mk.injEq, LOut.raised.injEq] at h
+        obtain ⟨rfl, rfl⟩ := h
+        by_cases hpre : rwithPrecheckFails s u new = true
+        · have := fail_frame_rwith_precheck Hc (fuel := fuelOf s) hpre
+          rw [hrw] at this; simp only at this; rw [this]; exact Frame.refl _
+        · -- the pre-checks passed: only `new = some n` can still be rejected
+          cases new with
+          | none =>
+            exfalso
+            unfold replaceWith at hrw
+            simp only [Bool.false_eq_true, if_false] at hrw
+            unfold rwithPrecheckFails at hpre
+            simp only [Bool.false_or] at hpre
+            cases hp : s.parent u with
+            | none =>
+              rw [hp] at hrw; simp only at hrw
+              split at hrw <;> simp at hrw
+            | some p =>
+              rw [hp] at hrw hpre; simp only at hrw hpre
+              cases hf : (s.obj u).pfield with
+              | none => rw [hf] at hpre; simp at hpre
+              | some f =>
+                rw [hf] at hrw hpre; simp only at hrw hpre
+                cases hfl : (s.obj p).fields.find? (·.name = f) with
+                | none => rw [hfl] at hpre; simp at hpre
+                | some fl =>
+                  rw [hfl] at hrw hpre; simp only at hrw hpre
+                  have : (!(decide (fl.kind = FKind.opt) || fl.kind.isSeq)) = false := by
+                    cases hh : (!(decide (fl.kind = FKind.opt) || fl.kind.isSeq)) <;> simp_all
+                  simp only [this, Bool.false_eq_true, if_false] at hrw
+                  split at hrw
+                  · simp at hrw
+                  · split at hrw <;> simp at hrw
+          | some n =>
+            have hsub : s.isAttachedSubtree n = false := by
+              unfold rwithPrecheckFails at hpre
+              cases hh : s.isAttachedSubtree n <;> simp_all
+            cases hp : s.parent u with
+            | none => exact rwith_rollback_root Hc hI hp hsub hrw
+            | some p =>
+              have hnu : n ≠ u := by
+                intro e; subst e
+                have hua : Att s n := by
+                  unfold LState.parent at hp
+                  cases hk : (s.obj n).pid with
+                  | none => rw [hk] at hp; cases hp
+                  | some k => exact (hI.noDangling n k hk).1
+                simp [LState.isAttachedSubtree, hp, (detached_eq_false_iff s n).mpr hua] at hsub
+              exact rwith_rollback_parent Hc hI hp hsub hnu hrw
+
+/-! ### a rejected `duplicate` -/
+
+/-- **`duplicate` rejected** (at any depth of the recursion, clone or not): every pre-existing record is
+untouched, every pre-existing registry entry is kept, and an additional entry can only belong to an object
+created by the rejected call (an already duplicated child: nothing refers to it, so with the weak registry
+it is gone when the call returns -- `gcNew` in Handle/Legacy.lean) -/
+theorem fail_frame_dup {s s' : LState} {u : Nat} {clone : Bool} {e : Err} (hI : Inv Hc s)
+    (h : step H Hc s (.dup u clone) = (s', .raised e)) :
+    (∀ v, v < s.size → s'.obj v = s.obj v) ∧ (∀ k v, s.lookup k = some v → s'.lookup k = some v) ∧
+    (∀ k v, s'.lookup k = some v → s.lookup k = some v ∨ s.size ≤ v) := by
+  unfold step at h
+  split at h
+  · cases h; exact ⟨fun _ _ => rfl, fun _ _ h => h, fun _ _ h => .inl h⟩
+  · next hr =>
+    simp only at h
+    have hlt := C18.refs_lt (by simpa using hr)
+    cases hd : duplicate H Hc (2 * fuelOf s) clone (fuelOf s) s u with
+    | mk s1 r1 =>
+      rw [hd] at h
+      cases r1 with
+      | ok n => simp [ofNode] at h
+      | error e' =>
+        simp only [ofNode, Prod.mk.injEq] at h
+        obtain ⟨rfl, _⟩ := h
+        obtain ⟨⟨_, hN, _⟩, _⟩ := duplicate_all H Hc _ _ _ s u s1 _ hI (NewOnly.refl s)
+          (hlt u (by simp [LOp.refs])) hd
+        exact ⟨hN.obj, hN.keep, hN.fresh⟩
+
 /-! ### non-vacuity: every theorem is applied to a concrete rejected call -/
 section examples
 open PyOak.Legacy.Ex PyOak.Legacy.C18
@@ -452,6 +789,22 @@ example : rwithPrecheckFails (st base) 2 (some 1) = true := by decide
 example : (replaceWith id 9 (st base) 2 (some 1)).1 = st base := fail_frame_rwith_precheck id (by decide)
 example : rwithPrecheckFails (st base) 1 none = true := by decide
 example : (replaceWith id 9 (st base) 1 none).1 = st base := fail_frame_rwith_precheck id (by decide)
+
+-- replace_with a node that cannot be attached (its child 0 sits in node 2): the receiver's subtree is
+-- detached and re-attached by the roll-back -- receiver a root (3) / a child (1)
+def base4 : List LOp := base ++ [.new (un 0 true)]
+example : outOf base4 (.rwith 3 (some 4)) = .raised .replaceWithError := by decide
+example : Frame (st base4) (step id id (st base4) (.rwith 3 (some 4))).1 :=
+  fail_frame_rwith id id (s := st base4) (u := 3) (new := some 4) (inv_run_init_partial id id _ (by decide))
+    (mk_eq _ _ (by decide))
+example : outOf base4 (.rwith 1 (some 4)) = .raised .replaceWithError := by decide
+example : Frame (st base4) (step id id (st base4) (.rwith 1 (some 4))).1 :=
+  fail_frame_rwith id id (s := st base4) (u := 1) (new := some 4) (inv_run_init_partial id id _ (by decide))
+    (mk_eq _ _ (by decide))
+
+-- duplicate of something that does not exist
+example := fail_frame_dup id id (s := st base) (u := 9) (clone := false) (e := .badRequest) inv_base
+  (mk_eq _ _ (by decide))
 
 end examples
 
